@@ -1309,3 +1309,199 @@ Proof.
   - apply trim_pair_err_only_index in E. subst e0.
     split; [split; reflexivity|]. intros e H; inversion H; reflexivity.
 Qed.
+
+(* ------------------------------------------------------------------------- *)
+(* Completeness of the first_extrema trimming: only the leading extremum of   *)
+(* the other kind and the trailing extremum of the requested kind can go      *)
+(* ------------------------------------------------------------------------- *)
+
+Lemma trim_pair_exact firsts others firsts' others' :
+  trim_pair firsts others = Ok (firsts', others') ->
+  others' = (if (headZ others <? headZ firsts)%Z then tl others else others) /\
+  firsts' = (if (lastZ others' <? lastZ firsts)%Z then removelast firsts else firsts).
+Proof.
+  unfold trim_pair. destruct firsts as [|f0 fs]; [discriminate|].
+  destruct others as [|o0 os]; [discriminate|]. cbn [headZ hd].
+  destruct (if (o0 <? f0)%Z then tl (o0 :: os) else o0 :: os) as [|o1 os'] eqn:Eo; [discriminate|].
+  intros Hok. inversion Hok; subst firsts' others'. split; reflexivity.
+Qed.
+
+Lemma trim_pair_complete firsts others firsts' others' :
+  trim_pair firsts others = Ok (firsts', others') ->
+  (firsts' = firsts \/ firsts' = removelast firsts) /\ (others' = others \/ others' = tl others).
+Proof.
+  intros Hok. destruct (trim_pair_exact _ _ _ _ Hok) as (Ho & Hf). split.
+  - rewrite Hf. destruct (lastZ others' <? lastZ firsts)%Z; [right|left]; reflexivity.
+  - rewrite Ho. destruct (headZ others <? headZ firsts)%Z; [right|left]; reflexivity.
+Qed.
+
+(* first_extrema = 'peak': with P, T the boundary-filtered half-wave extrema, the reported troughs
+   are T or T without its first entry (dropped iff it precedes the first peak) and the reported
+   peaks are P or P without its last entry (dropped iff no reported trough follows it) *)
+Theorem find_extrema_peak_first_complete x peaks troughs pk tr :
+  find_extrema x = Ok (peaks, troughs) -> x_first x = FPeak ->
+  raw_extrema (x_pos x) (pad (x_padn x) (x_raw x)) = Ok (pk, tr) ->
+  let P := unpad_filter (x_padn x) (Z.of_nat (length (x_raw x))) (x_boundary x) pk in
+  let T := unpad_filter (x_padn x) (Z.of_nat (length (x_raw x))) (x_boundary x) tr in
+  (peaks = P \/ peaks = removelast P) /\ (troughs = T \/ troughs = tl T) /\
+  troughs = (if (headZ T <? headZ P)%Z then tl T else T) /\
+  peaks = (if (lastZ troughs <? lastZ P)%Z then removelast P else P).
+Proof.
+  intros Hok Hf Hraw. cbv zeta.
+  rewrite (find_extrema_unfold _ _ _ Hraw), Hf in Hok. cbn [trim] in Hok. unfold xn in Hok.
+  destruct (trim_pair_complete _ _ _ _ Hok) as (Hp & Ht).
+  destruct (trim_pair_exact _ _ _ _ Hok) as (Ht' & Hp').
+  split; [exact Hp|]. split; [exact Ht|]. split; [exact Ht'|exact Hp'].
+Qed.
+
+Theorem find_extrema_trough_first_complete x peaks troughs pk tr :
+  find_extrema x = Ok (peaks, troughs) -> x_first x = FTrough ->
+  raw_extrema (x_pos x) (pad (x_padn x) (x_raw x)) = Ok (pk, tr) ->
+  let P := unpad_filter (x_padn x) (Z.of_nat (length (x_raw x))) (x_boundary x) pk in
+  let T := unpad_filter (x_padn x) (Z.of_nat (length (x_raw x))) (x_boundary x) tr in
+  (troughs = T \/ troughs = removelast T) /\ (peaks = P \/ peaks = tl P) /\
+  peaks = (if (headZ P <? headZ T)%Z then tl P else P) /\
+  troughs = (if (lastZ peaks <? lastZ T)%Z then removelast T else T).
+Proof.
+  intros Hok Hf Hraw. cbv zeta.
+  rewrite (find_extrema_unfold _ _ _ Hraw), Hf in Hok. cbn [trim] in Hok. unfold xn in Hok.
+  destruct (trim_pair _ _) as [[f' o']|e] eqn:Etp; [|discriminate].
+  cbn [bind fst snd] in Hok. inversion Hok; subst o' f'. clear Hok.
+  destruct (trim_pair_complete _ _ _ _ Etp) as (Ht & Hp).
+  destruct (trim_pair_exact _ _ _ _ Etp) as (Hp' & Ht').
+  split; [exact Ht|]. split; [exact Hp|]. split; [exact Hp'|exact Ht'].
+Qed.
+
+(* ------------------------------------------------------------------------- *)
+(* Which entries survive the trimming, stated on membership                   *)
+(* ------------------------------------------------------------------------- *)
+
+Lemma wfz_sel_sorted k mm : wfz mm -> StronglySorted Z.lt (sel k mm).
+Proof.
+  induction mm as [|[a ka] t IH]; intros Hwf; [constructor|].
+  specialize (IH (wfz_tl _ _ Hwf)).
+  destruct (Bool.eqb ka k) eqn:Ek.
+  - apply eqb_prop in Ek. subst ka. rewrite sel_cons_same. constructor; [exact IH|].
+    apply Forall_forall. intros z Hz. apply sel_In in Hz.
+    exact (wfz_lt _ _ _ Hwf _ Hz).
+  - assert (Hka : ka = negb k) by (destruct ka, k; try reflexivity; discriminate).
+    subst ka. rewrite sel_cons_other'. exact IH.
+Qed.
+
+Lemma ssortedZ_head_le l z : StronglySorted Z.lt l -> In z l -> (headZ l <= z)%Z.
+Proof.
+  intros Hs Hz. destruct l as [|a t]; [destruct Hz|]. cbn [headZ hd].
+  destruct Hz as [<-|Hz]; [lia|].
+  apply StronglySorted_inv in Hs as (_ & Hf). rewrite Forall_forall in Hf.
+  specialize (Hf z Hz). lia.
+Qed.
+
+Lemma ssortedZ_le_last l z : StronglySorted Z.lt l -> In z l -> (z <= lastZ l)%Z.
+Proof.
+  revert z. induction l as [|a t IH]; intros z Hs Hz; [destruct Hz|].
+  apply StronglySorted_inv in Hs as (Hst & Hf).
+  destruct t as [|b t'].
+  - destruct Hz as [<-|[]]. unfold lastZ. cbn [last]. lia.
+  - change (lastZ (a :: b :: t')) with (lastZ (b :: t')).
+    destruct Hz as [<-|Hz]; [|exact (IH z Hst Hz)].
+    rewrite Forall_forall in Hf.
+    assert (Hab := Hf b (or_introl eq_refl)).
+    assert (Hbl := IH b Hst (or_introl eq_refl)). lia.
+Qed.
+
+Lemma ssortedZ_tl l : StronglySorted Z.lt l -> StronglySorted Z.lt (tl l).
+Proof. destruct l as [|a t]; [intros H; exact H|]. intros H. apply StronglySorted_inv in H as (H & _). exact H. Qed.
+
+Lemma in_removelast_or_last (l : list Z) z : In z l -> In z (removelast l) \/ z = lastZ l.
+Proof.
+  intros Hz. assert (Hne : l <> []) by (intros ->; destruct Hz).
+  rewrite (app_removelast_last 0%Z Hne) in Hz. apply in_app_or in Hz as [Hz|[<-|[]]].
+  - left; exact Hz.
+  - right; reflexivity.
+Qed.
+
+Lemma interleaved_partner ps : forall ts, interleaved ps ts ->
+  (forall z, In z ps -> exists t, In t ts /\ (z < t)%Z) /\
+  (forall z, In z ts -> exists p, In p ps /\ (p < z)%Z).
+Proof.
+  induction ps as [|p ps' IH]; intros ts Hi.
+  - destruct ts; [|destruct Hi]. split; intros z [].
+  - destruct ts as [|t ts']; [destruct Hi|]. cbn [interleaved] in Hi. destruct Hi as (Hpt & _ & Hrest).
+    destruct (IH ts' Hrest) as (IH1 & IH2). split.
+    + intros z [<-|Hz].
+      * exists t. split; [left; reflexivity|exact Hpt].
+      * destruct (IH1 z Hz) as (t' & Ht' & Hlt). exists t'. split; [right; exact Ht'|exact Hlt].
+    + intros z [<-|Hz].
+      * exists p. split; [left; reflexivity|exact Hpt].
+      * destruct (IH2 z Hz) as (p' & Hp' & Hlt). exists p'. split; [right; exact Hp'|exact Hlt].
+Qed.
+
+(* trim_pair on the two projections of an alternating merged list keeps exactly the requested-kind
+   entries that are followed by an entry of the other kind, and the other-kind entries that are
+   preceded by an entry of the requested kind *)
+Lemma trim_pair_members k mm firsts' others' :
+  wfz mm -> trim_pair (sel k mm) (sel (negb k) mm) = Ok (firsts', others') ->
+  (forall z, In z firsts' <-> In z (sel k mm) /\ exists t, In t (sel (negb k) mm) /\ (z < t)%Z) /\
+  (forall z, In z others' <-> In z (sel (negb k) mm) /\ exists p, In p (sel k mm) /\ (p < z)%Z).
+Proof.
+  intros Hwf Hok.
+  destruct (trim_pair_spec k mm _ _ Hwf Hok) as (Hint & Hif & Hio).
+  destruct (interleaved_partner _ _ Hint) as (Hpf & Hpo).
+  destruct (trim_pair_exact _ _ _ _ Hok) as (Eo & Ef).
+  assert (Hsf := wfz_sel_sorted k mm Hwf).
+  assert (Hso := wfz_sel_sorted (negb k) mm Hwf).
+  assert (Hso' : StronglySorted Z.lt others').
+  { rewrite Eo. destruct (headZ (sel (negb k) mm) <? headZ (sel k mm))%Z; [apply ssortedZ_tl|]; exact Hso. }
+  (* an other-kind entry preceded by a requested-kind entry survives *)
+  assert (Hkeep_o : forall z p, In z (sel (negb k) mm) -> In p (sel k mm) -> (p < z)%Z -> In z others').
+  { intros z p Hz Hp Hlt. rewrite Eo.
+    destruct (headZ (sel (negb k) mm) <? headZ (sel k mm))%Z eqn:Eh; [|exact Hz].
+    apply Z.ltb_lt in Eh. assert (Hhp := ssortedZ_head_le _ _ Hsf Hp).
+    destruct (sel (negb k) mm) as [|o0 os]; [destruct Hz|]. cbn [headZ hd tl] in *.
+    destruct Hz as [<-|Hz]; [lia|exact Hz]. }
+  split; intros z; split.
+  - intros Hz. split; [exact (Hif _ Hz)|].
+    destruct (Hpf z Hz) as (t & Ht & Hlt). exists t. split; [exact (Hio _ Ht)|exact Hlt].
+  - intros (Hz & t & Ht & Hlt). rewrite Ef.
+    destruct (lastZ others' <? lastZ (sel k mm))%Z eqn:El; [|exact Hz].
+    apply Z.ltb_lt in El.
+    destruct (in_removelast_or_last _ _ Hz) as [Hr|Hl]; [exact Hr|]. exfalso.
+    assert (Ht' := Hkeep_o t z Ht Hz Hlt).
+    assert (Hle := ssortedZ_le_last _ _ Hso' Ht'). lia.
+  - intros Hz. split; [exact (Hio _ Hz)|].
+    destruct (Hpo z Hz) as (p & Hp & Hlt). exists p. split; [exact (Hif _ Hp)|exact Hlt].
+  - intros (Hz & p & Hp & Hlt). exact (Hkeep_o z p Hz Hp Hlt).
+Qed.
+
+Theorem find_extrema_peak_first_members x peaks troughs pk tr :
+  find_extrema x = Ok (peaks, troughs) -> x_first x = FPeak ->
+  raw_extrema (x_pos x) (pad (x_padn x) (x_raw x)) = Ok (pk, tr) ->
+  length (x_raw x) + 2 * x_padn x = length (x_pos x) ->
+  let P := unpad_filter (x_padn x) (Z.of_nat (length (x_raw x))) (x_boundary x) pk in
+  let T := unpad_filter (x_padn x) (Z.of_nat (length (x_raw x))) (x_boundary x) tr in
+  (forall z, In z peaks <-> In z P /\ exists t, In t T /\ (z < t)%Z) /\
+  (forall z, In z troughs <-> In z T /\ exists p, In p P /\ (p < z)%Z).
+Proof.
+  intros Hok Hf Hraw Hlen. cbv zeta.
+  rewrite (find_extrema_unfold _ _ _ Hraw), Hf in Hok. cbn [trim] in Hok.
+  destruct (filtered_merged _ _ _ Hraw Hlen) as (mm & Hwf & Ep & Et). unfold xn in *.
+  rewrite Ep, Et in *. exact (trim_pair_members true mm _ _ Hwf Hok).
+Qed.
+
+Theorem find_extrema_trough_first_members x peaks troughs pk tr :
+  find_extrema x = Ok (peaks, troughs) -> x_first x = FTrough ->
+  raw_extrema (x_pos x) (pad (x_padn x) (x_raw x)) = Ok (pk, tr) ->
+  length (x_raw x) + 2 * x_padn x = length (x_pos x) ->
+  let P := unpad_filter (x_padn x) (Z.of_nat (length (x_raw x))) (x_boundary x) pk in
+  let T := unpad_filter (x_padn x) (Z.of_nat (length (x_raw x))) (x_boundary x) tr in
+  (forall z, In z troughs <-> In z T /\ exists p, In p P /\ (z < p)%Z) /\
+  (forall z, In z peaks <-> In z P /\ exists t, In t T /\ (t < z)%Z).
+Proof.
+  intros Hok Hf Hraw Hlen. cbv zeta.
+  rewrite (find_extrema_unfold _ _ _ Hraw), Hf in Hok. cbn [trim] in Hok.
+  destruct (filtered_merged _ _ _ Hraw Hlen) as (mm & Hwf & Ep & Et). unfold xn in *.
+  rewrite Ep, Et in *.
+  destruct (trim_pair (sel false mm) (sel true mm)) as [[f' o']|e] eqn:Etp; [|discriminate].
+  cbn [bind fst snd] in Hok. inversion Hok; subst o' f'. clear Hok.
+  exact (trim_pair_members false mm _ _ Hwf Etp).
+Qed.
